@@ -14,7 +14,8 @@ import signatures as sg
 from enc import K, N, jsonable
 
 THEOREMS = ["C17_conform_returns_select", "C17_conform_idempotent", "C17_append_unary_returns_select",
-            "C17_append_binary_returns_select", "C17_compound_iff_chain", "C17_conform_preserves_rows"]
+            "C17_append_binary_returns_select", "C17_compound_iff_chain", "C17_conform_preserves_rows",
+            "C17_conform_preserves_rows_raw"]
 HDR = "From DR Require Import Model.CheckStruct.\nOpen Scope Z_scope.\n"
 
 
